@@ -188,6 +188,11 @@ func Concrete(x int) int             { return x }
 func ConcreteString(s string) string { return s }
 func SymSched(on bool)               {}
 func Yield()                         {}
+
+// PreemptBound(k): under symgo, from now on the running goroutine may be preempted at every
+// synchronisation point in favour of another runnable goroutine, at most k times per path
+// (all such schedules are explored). Natively a no-op.
+func PreemptBound(k int) {}
 func WaitIdle()                      {}
 
 // Clock returns arbitrary non-decreasing instants (seconds).
